@@ -86,6 +86,9 @@ SCENARIOS = {
     "klist": {"root": "P", "classes": {"KChild": KCHILD, "P": cls([
         attr("ks", TKL(TU("KChild"), TSTR), "factory", KL(), item="k"),
     ])}},
+    "kset": {"root": "P", "classes": {"KChild": KCHILD, "P": cls([
+        attr("kk", TKS(TU("KChild"), TSTR), "factory", KS(), item="kk_item"),
+    ])}},
     "dict_spec": {"root": "P", "classes": {"KChild": KCHILD, "P": cls([
         attr("kd", TD(TSTR, TU("KChild")), "factory", D(), item="kd_item"),
     ])}},
@@ -103,6 +106,25 @@ SCENARIOS = {
     "frozen_kids": {"root": "P", "classes": {"Child": cls([attr("v", TINT, "lit", I(0)), attr("ws", TL(TINT), "lit", L(), item="w")], frozen=True), "P": cls([
         attr("kids", TL(TU("Child")), "factory", L(), item="kid"),
     ])}},
+    "inv_chain": {"root": "P", "classes": {"P": cls([
+        attr("a", TINT, "lit", I(0)),
+        attr("b", TINT, "lit", I(0)),
+    ], props=[prop("p", "a_plus_10", True, ["a"]), prop("q", "p_times_2", True, ["p"]), prop("r", "a_plus_b", True, ["*"])])}},
+    "inv_attr": {"root": "P", "classes": {"P": cls([
+        attr("a", TINT, "lit", I(0)),
+        attr("c", TINT, "attr", I(2), invby=["a", "u"]),
+        attr("u", TINT),
+    ], props=[prop("s", "c_plus_1", True, ["c"])])}},
+    "inv_nocache": {"root": "P", "classes": {"P": cls([
+        attr("a", TINT, "lit", I(0)),
+    ], props=[prop("p", "a_plus_10", False, ["a"]), prop("q", "p_times_2", True, ["p"])])}},
+    "inv_list": {"root": "P", "classes": {"P": cls([
+        attr("xs", TL(TINT), "lit", L(), item="x"),
+    ], props=[prop("n", "len_xs", True, ["xs"])])}},
+    "inv_sub": {"root": "Sub", "classes": {
+        "Base": cls([attr("a", TINT, "lit", I(0))], props=[prop("p", "a_plus_10", True, ["a"])]),
+        "Sub": cls([dict(attr("a", TINT, "lit", I(0)), inherited=True, redefault=None), attr("c", TINT, "attr", I(2), invby=["a"])],
+                   props=[dict(prop("p", "a_plus_10", True, ["a"]), inherited=True), prop("q", "p_times_2", True, ["p"])], bases=["Base"])}},
     "prepared": {"root": "P", "classes": {"P": cls([
         attr("n", TINT, "lit", I(0), prep="pclip"),
         attr("nums", TL(TINT), "factory", L(), iprep="pclip", item="num"),
@@ -119,7 +141,8 @@ def tla_scenario(scn):
     for cname, c in scn["classes"].items():
         ct[cname] = {"attrs": [a["name"] for a in c["attrs"]],
                      "spec": {a["name"]: {k: a[k] for k in ("ty", "dk", "dv", "dnc", "invby", "prep", "iprep", "item")} for a in c["attrs"]},
-                     "frozen": c["frozen"], "dnc": c["dnc"], "key": c["key"], "props": c["props"]}
+                     "frozen": c["frozen"], "dnc": c["dnc"], "key": c["key"],
+                     "props": [{k: p[k] for k in ("name", "getter", "cache", "invby")} for p in c["props"]]}
     return ct
 
 
@@ -236,6 +259,8 @@ def class_src(cname, c, eager_all=False):
         if a["iprep"] != "none":
             body.append(f"def _prepare_{a['item']}(self, value):\n    return FN[{a['iprep']!r}](value)")
     for p in c["props"]:
+        if p.get("inherited"):
+            continue
         body.append(f"@spec_property(cache={p['cache']!r}, invalidated_by={p['invby']!r})\ndef {p['name']}(self):\n"
                     f"    COUNTS[{p['name']!r}] = COUNTS.get({p['name']!r}, 0) + 1\n    return GETTERS[{p['getter']!r}](self)")
     if not body:
@@ -327,11 +352,15 @@ def pools_for(scn, root):
                     p["vp"] += [L(I(2), I(2)), L(I(1), S("a"))]
                 if it == TU("KChild"):
                     p["vp"] += [L(S("c")), L(KC("a"), KC("a", 1))]
+                    if k == "klist":      # already-keyed containers holding raw keys / foreign items (re-validated item by item)
+                        p["vp"] += [KL(S("c")), KL(I(1), I(2)), KL(KC("b"), S("c"))]
             elif k in ("set", "kset"):
                 p["vop"] = [x for x in items if x != MISSING]
                 p["ip"] = [x for x in items if x != MISSING]
                 p["uip"] = [x for x in items if x != MISSING][:3] + ([MISSING] if is_spec(scn, it) else [])
                 p["vp"] = [SET(), SET(good[0]), SET(good[0], good[1]), L(good[1], good[1]), SET(items[-1]), NONE, I(5), MISSING]
+                if k == "kset":
+                    p["vp"] = [KS(), KS(good[0]), L(good[0], good[1]), KS(I(1)), KS(S("c")), L(S("c")), NONE, MISSING]
             else:
                 p["kp"] = [S("a"), S("b"), I(1)]
                 p["vp"] = [D(), D((S("a"), good[0])), D((S("a"), good[1]), (S("b"), good[0])), D((I(1), good[0])), D((S("a"), items[-1] if items[-1] != MISSING else S("x"))), L(), NONE, MISSING]
@@ -376,7 +405,7 @@ def top_pools(scn, root, pools):
     key = c["key"]
     if key:
         init = [kws((key, S("a")))]
-    return {"kw": kw, "kwf": kwf, "init": init}
+    return {"kw": kw, "kwf": kwf, "init": init, "ovp": [I(7)] if c["props"] else []}
 
 
 def model_constants(name):
